@@ -90,6 +90,10 @@ impl Xot {
     /// ```
     pub fn append(&mut self, parent: Node, child: Node) -> Result<(), Error> {
         self.add_structure_check(Some(parent), child)?;
+        // already the last child: nothing to do
+        if self.parent(child) == Some(parent) && self.next_sibling(child).is_none() {
+            return Ok(());
+        }
         self.remove_consolidate_text_nodes(self.previous_sibling(child), self.next_sibling(child));
         if self.add_consolidate_text_nodes(child, self.last_child(parent), None) {
             return Ok(());
@@ -331,6 +335,10 @@ impl Xot {
     /// It is now the new first node of the parent.
     pub fn prepend(&mut self, parent: Node, child: Node) -> Result<(), Error> {
         self.add_structure_check(Some(parent), child)?;
+        // already the first child: nothing to do
+        if self.parent(child) == Some(parent) && self.previous_sibling(child).is_none() {
+            return Ok(());
+        }
         self.remove_consolidate_text_nodes(self.previous_sibling(child), self.next_sibling(child));
         if self.add_consolidate_text_nodes(child, None, self.first_child(parent)) {
             return Ok(());
@@ -375,6 +383,10 @@ impl Xot {
     pub fn insert_after(&mut self, reference_node: Node, new_sibling: Node) -> Result<(), Error> {
         self.add_structure_check(self.parent(reference_node), new_sibling)?;
         self.sibling_reference_check(reference_node)?;
+        // already right after the reference node: nothing to do
+        if self.previous_sibling(new_sibling) == Some(reference_node) {
+            return Ok(());
+        }
         self.remove_consolidate_text_nodes(
             self.previous_sibling(new_sibling),
             self.next_sibling(new_sibling),
@@ -396,6 +408,10 @@ impl Xot {
     pub fn insert_before(&mut self, reference_node: Node, new_sibling: Node) -> Result<(), Error> {
         self.add_structure_check(self.parent(reference_node), new_sibling)?;
         self.sibling_reference_check(reference_node)?;
+        // already right before the reference node: nothing to do
+        if self.next_sibling(new_sibling) == Some(reference_node) {
+            return Ok(());
+        }
         self.remove_consolidate_text_nodes(
             self.previous_sibling(new_sibling),
             self.next_sibling(new_sibling),
